@@ -329,8 +329,10 @@ func (r *inFlightRequest) startTimeout() {
 			switch timeoutCtx.Err() {
 			case context.DeadlineExceeded:
 				verifGate("timer.fire", int64(r.streamId))
+				verifGateReq("timer.fire", r)
 				err := fmt.Errorf("%v: timed out waiting for incoming frames", r)
 				r.close(err)
+				verifGateReq("timer.fired", r)
 			case context.Canceled:
 				log.Trace().Msgf("%v: timeout canceled", r)
 			}
